@@ -179,6 +179,11 @@ impl FModel {
                     return Step::FileError;
                 }
                 let data = self.store.get(&x.name).cloned().unwrap_or_default();
+                // INPUT # over record space that was never written, or over the padding of a value shorter than its FIELD:
+                // whether those bytes are trimmed like blanks is not fixed by the property (R12)
+                if !matches!(op, Op::LineInput(_)) && data[x.pos.min(data.len())..].contains(&0) {
+                    return Step::Undecided("R12: INPUT # over unwritten record space or the padding of a short LSET value");
+                }
                 let mut out = vec![];
                 let n = if matches!(op, Op::Input2(_)) { 2 } else { 1 };
                 for _ in 0..n {
@@ -258,8 +263,9 @@ impl FModel {
                         data.push(0);
                     }
                     let mut rec: Vec<u8> = RECORDS[*v].as_bytes().to_vec();
+                    // the padding of a value shorter than its FIELD is not fixed by the property (R12): unspecified bytes, like a gap
                     while rec.len() < 4 {
-                        rec.push(b' ');
+                        rec.push(0);
                     }
                     for (i, b) in rec.iter().enumerate() {
                         if off + i < data.len() {
